@@ -230,10 +230,11 @@ CLAIMED = {
             'precision cap keep the cap inside the loop and the cap test is not made infeasible by a '
             'preceding clamp; precision-escalation loops grow and compare with their bound before '
             'raising; the four asymptotic Euler-Maclaurin tails have a divergence exit or start beyond '
-            'ln2/(2 pi) * working precision.  Found and repaired: mpc_psi0 never returned above ~4400 '
+            'ln2/(2 pi) * working precision; the switch-over / argument-reduction thresholds in front of '
+            'the four asymptotic-series helpers are computed from the precision variable the series runs '
+            'at, after its last change (T-R8).  Found and repaired: mpc_psi0 never returned above ~4400 '
             'bits.',
-            'Convergence of each series / Newton iteration for each argument is not decided; seeded '
-            'change C24-1 (Stirling threshold computed from the lower precision) is not detected.',
+            'Convergence of each series / Newton iteration for each argument is not decided.',
             'DESIGN.md section 4 (C24)'),
     'C34': ('H-ode-closure',
             'static analysis: closure-state and region rules on odefun (frozen working-precision '
